@@ -567,6 +567,9 @@ def run(F, R, tier):
     r1_2(F, R)
     r1_345(F, R)
     r1_6(F, R)
+    if tier == "thorough":
+        from .. import witness
+        witness.run(R, ["C01"])
     return ("Static analysis over MIR facts of the whole workspace. Decides structural necessary conditions of group scoping: "
             "(R1.1) every grouped container is opened/closed with the VM group on every normal path; (R1.2) the three global-purge "
             "implementations loop over every open level with a loop-variant element; (R1.3) every \\global-prefixable primitive and the "
